@@ -11,6 +11,8 @@ pub mod srtpgate;
 pub mod gen_sctp;
 pub mod sctp;
 pub mod signaling;
+pub mod srtp;
+pub mod srtp_pk;
 
 pub async fn dispatch(ctx: &Ctx) {
     match ctx.plan.scenario.as_str() {
@@ -18,6 +20,7 @@ pub async fn dispatch(ctx: &Ctx) {
         "dtls_layer" => dtls::run(ctx).await,
         "demux" => demux::run(ctx).await,
         "latch" => latch::run(ctx).await,
+        "srtp_hist" => srtp::run(ctx).await,
         "signaling" => signaling::run(ctx).await,
         "ice_stun" => icestun::run(ctx).await,
         "pc_connect" => pc_connect::run(ctx).await,
@@ -40,6 +43,7 @@ pub fn generate(prop: &str, seed: u64, idx: u64, tier: Tier) -> Option<Plan> {
         "C11" | "C02" | "C03" => Some(dtls::generate(prop, seed, idx, tier)),
         "C19" => Some(demux::generate(prop, seed, idx, tier)),
         "C18" => Some(latch::generate(prop, seed, idx, tier)),
+        "C04" | "C05" => Some(srtp::generate(prop, seed, idx, tier)),
         "C09" => Some(signaling::generate(prop, seed, idx, tier)),
         "C06" => Some(icestun::generate(prop, seed, idx, tier)),
         "C10" => Some(pc_connect::generate(prop, seed, idx, tier)),
@@ -55,6 +59,7 @@ pub fn budget(prop: &str, tier: Tier) -> u64 {
         ("C11" | "C02" | "C03", t) => dtls::budget(prop, t),
         ("C19", t) => demux::budget(prop, t),
         ("C18", t) => latch::budget(prop, t),
+        ("C04" | "C05", t) => srtp::budget(prop, t),
         ("C09", t) => signaling::budget(prop, t),
         ("C06", t) => icestun::budget(prop, t),
         ("C10", t) => pc_connect::budget(prop, t),
